@@ -335,6 +335,10 @@ func RunC10(r *sim.Run) {
 						sig = "stuck-behind-stale-claim"
 					}
 				}
+				if sig == "stuck-behind-stale-claim" {
+					r.Finding("resolution_wrong_at_stable_point", sig, "stable point at step %d: host %q resolves to %q, but the latest objects say %q (claims: %v); resolution table %v", s.Step, h, s.Resolve[h], want, owners[h], s.Resolve)
+					break
+				}
 				r.Violate("resolution_wrong_at_stable_point", sig, "stable point at step %d: host %q resolves to %q, but the latest objects say %q (claims: %v); resolution table %v", s.Step, h, s.Resolve[h], want, owners[h], s.Resolve)
 				return
 			}
